@@ -64,6 +64,7 @@ from vector._methods import (
     Vector3D,
     Vector4D,
     VectorProtocol,
+    _repr_generic_to_momentum,
 )
 from vector._typeutils import BoolCollection, Protocol, ScalarCollection
 from vector.backends.numpy import VectorNumpy2D, VectorNumpy3D, VectorNumpy4D
@@ -1670,7 +1671,11 @@ behavior[numpy.power, "Momentum4D", numbers.Real] = (
 def _cast_numpy(v: typing.Any) -> typing.Any:
     # zip the columns so that the records sit at the innermost level whatever
     # the shape of the NumPy array (ak.Array(v) puts them outermost for ndim > 1)
-    return vector.Array(ak.zip({name: numpy.asarray(v[name]) for name in v.dtype.names}))
+    # a momentum array keeps its flavor: its fields get their momentum names
+    rename = _repr_generic_to_momentum if isinstance(v, Momentum) else {}
+    return vector.Array(
+        ak.zip({rename.get(name, name): numpy.asarray(v[name]) for name in v.dtype.names})
+    )
 
 
 behavior["__cast__", VectorNumpy2D] = _cast_numpy
